@@ -193,7 +193,7 @@ pub fn prune_contents(sc: &Scenario) -> Scenario {
                         mark(*c, &mut used);
                     }
                 }
-                Op::Install { cid, .. } | Op::BeginUpgrade { cid, .. } | Op::AtomicReplace { cid, .. } => mark(*cid, &mut used),
+                Op::Install { cid, .. } | Op::BeginUpgrade { cid, .. } | Op::AtomicReplace { cid, .. } | Op::LiveInstall { cid, .. } => mark(*cid, &mut used),
                 _ => {}
             }
         }
@@ -249,7 +249,7 @@ pub fn prune_contents(sc: &Scenario) -> Scenario {
                         *c = re(*c);
                     }
                 }
-                Op::Install { cid, .. } | Op::BeginUpgrade { cid, .. } | Op::AtomicReplace { cid, .. } => *cid = re(*cid),
+                Op::Install { cid, .. } | Op::BeginUpgrade { cid, .. } | Op::AtomicReplace { cid, .. } | Op::LiveInstall { cid, .. } => *cid = re(*cid),
                 _ => {}
             }
         }
